@@ -1,0 +1,16 @@
+//go:build verif
+
+package console
+
+import (
+	"regexp"
+	"time"
+
+	expect "github.com/tailscale/goexpect"
+)
+
+// VerifNewConn builds a Conn around an existing expecter (verification harness only):
+// lets the harness call the real ios.stripReloadBanner against a prepared expect buffer.
+func VerifNewConn(e *expect.GExpect, prompt *regexp.Regexp, timeout, short time.Duration) *Conn {
+	return &Conn{con: e, promptRE: prompt, Timeout: timeout, ShortTimeout: short}
+}
